@@ -320,6 +320,14 @@ func (c *Client) flush(ctx context.Context) error {
 		// Part of the data can be already written, so the stream is broken
 		// in the middle of a packet and connection can't be used anymore.
 		_ = c.Close()
+		if ctxErr := ctx.Err(); ctxErr != nil {
+			return errors.Join(err, ctxErr)
+		}
+		if d, ok := ctx.Deadline(); ok && !time.Now().Before(d) {
+			// Write deadline is set from context deadline, so write timeout
+			// means that context deadline is exceeded.
+			return errors.Join(err, context.DeadlineExceeded)
+		}
 		return err
 	}
 	if ce := c.lg.Check(zap.DebugLevel, "Flush"); ce != nil {
